@@ -21,11 +21,18 @@ CFG = {
     "shrink": [],
     "rule": "exhaustive: each of 32 distinct hostile strings (leading dashes, option look-alikes of docker/pack, '=', spaces, empty, Unicode, shell "
             "metacharacters) alone in each of up to 12 positions (the empty string is not used as env key, mount path or buildpack reference, strings with = not as env key) (entrypoint, sole/middle command word, env value, env key, mount source, mount "
-            "target, buildpack reference, builder, build env value, shell command, exec command); then seeded random scenarios: "
-            "build config (builder, relative/absolute app path in 9 spellings, preprocessor with <=3 edits or none, <=3(+1) buildpacks, "
+            "target, buildpack reference, builder, build env value, shell command, exec command); exhaustive part 2: 9 preprocessor edit sets (overwrite, remove-if-present, append to an "
+            "existing / a new file, rename, strict remove, create-then-rename, a combination, none; append/rename/strict remove are NOT idempotent "
+            "and the strict ones panic on a second application) x {relative, absolute app dir} x 5 rebuild patterns (caller's own fresh config; "
+            "context.config.clone(); that plus env pairs set after the clone, one overriding an inherited key; twice in a row from the context's "
+            "config; fresh rebuild then context-config rebuild) - the pack stand-in snapshots the directory given as --path at EVERY invocation and "
+            "the spec oracle requires fixture + edits exactly once, judged from the configuration alone; then seeded random scenarios: "
+            "build config (builder, relative/absolute app path in 9 spellings, preprocessor with <=3 edits (overwrite/remove/append/rename/strict remove) or none, <=3(+1) buildpacks, "
             "<=3 env pairs, expected success/failure) with <=3 acts out of start_container(random config: entrypoint, <=3 command words, "
             "<=3 env, <=3 ports, <=3(+1) mounts; <=3 of logs_now/logs_wait/address_for_port/shell_exec), run_shell_command, "
-            "download_sbom_files, rebuild(second config). Every 40th sample carries a CSV metacharacter in a mount path, every other 40th "
+            "download_sbom_files, and as last act a rebuild with a second fresh config or with context.config.clone() + <=2 env pairs set after the clone "
+            "(1/3 overriding an inherited key) + expected result, 1/4 of those followed by a third build again from the context's config; env lists "
+            "occasionally repeat a key (last value wins); absolute app dirs go through the app_dir setter, env lists of >=2 through envs(). Every 40th sample carries a CSV metacharacter in a mount path, every other 40th "
             "in a buildpack reference (kind=d6-*; none during a violation search). quick: 1600 samples, thorough: 20000. "
             "non-trivial = at least one hostile string (empty, leading '-', contains '=' or space, non-ASCII) in a user-supplied position; "
             "distinct = distinct input line",
